@@ -83,6 +83,13 @@ def families():
     fams.append(("GBParallel/reduce", strategy.run_pool, pc[2:], "Trace_GBParallel", C03.PTRACE, lambda t: t["reduced"].reverse() or True))
     fams.append(("GBSelect/kernel", rowwise.run_find_n, [dict(fn=f, codes=[0, 1, 0, -1, 1, 0], ngroups=2, n=2, sel=[1, 1, 1, 1, 0, 1]) for f in ("first", "last")],
                  "Trace_GBSelect", C15.TRACE_CFG, lambda t: _bump_first_number(t["mat"])))
+    from .checks import C17 as _C17
+    from .drivers import facade as _facade
+    dcase = dict(k1=[1, 2, 1], k2=None, vcols={"v1": [1, 2, 3], "v2": [0, NULL, 2]}, by="col", index="shuffled", method="d_head", select="last", series=False, kkinds=["str", "f64"], seed=3)
+    fams.append(("GBFacade/deleg", lambda c: _facade.run_case(c), [dcase, dict(dcase, method="d_median", select=None)], "Trace_GBFacade", _C17.PLAIN,
+                 lambda t: t.update(eq=0) or True))
+    fams.append(("GBFactorize/probe", factorize.run_scaled_multikey, [dict(L=300, nkeys=3, target="f2d")], "Trace_GBFactorize", C02.TRACE_CFG,
+                 lambda t: t["codes"].__setitem__(1, t["codes"][0]) or True))
     fams.append(("GBCumulative/long", rowwise.run_cum, [C08.long_cases("quick")[0]], "Trace_GBCumulative", C08.TRACE_CFG.format(diag="FALSE"),
                  lambda t: t["res"].__setitem__(30000, t["res"][30000] + 1) or True))
     return fams
